@@ -140,6 +140,9 @@ type Unit struct {
 	locksUsed   bool
 	frozenHeaps   map[string]*types.Map // pointee heaps of "frozen" registries -> the registry's map type
 	rebinds       []string // clause locals bound by type after a rename, anchors and invariants found in inlined helpers (reported in the evidence)
+	globalAddr    map[string]string // addresses of package variables whose address was taken
+	calleeStaleAt int      // 1 + position in the command stream of the first call whose postcondition could not be assumed
+	calleeStale   []string // postconditions of callees that could not be assumed because they no longer type-check
 	preStale      bool     // a precondition of the unit's contract could not be evaluated: the body was verified without it
 	staleClauses  []string // clauses that no longer type-check against the code: dropped, undecided (reported)
 	distinctHeaps map[string]string // map-value heaps of "distinct" registries -> key sort
@@ -877,6 +880,24 @@ func (fr *frame) ptrTerm(v *Val, st *State) string {
 		u.abstract("interior-pointer-snapshot")
 		v.t = lv.ref
 		return v.t
+	}
+	if lv.kind == lvCell && strings.HasPrefix(lv.name, "G:") && len(lv.path) == 0 && u.alloc0 != "" {
+		// the address of a package variable: one address per variable, older than the function's entry (the contents
+		// seen through it are a snapshot, as for every materialised pointer)
+		if u.globalAddr == nil {
+			u.globalAddr = map[string]string{}
+		}
+		ga, ok := u.globalAddr[lv.name]
+		if !ok {
+			ga = u.declare("addr."+lv.name[2:], "Int")
+			u.assume("true", fmt.Sprintf("(and (> %s 0) (< %s %s))", ga, ga, u.alloc0))
+			u.globalAddr[lv.name] = ga
+		}
+		hl := &LVal{kind: lvHeap, name: "H:" + u.sorts.typeKey(lv.typ), ref: ga, rootT: lv.typ, typ: lv.typ}
+		u.write(st, hl, u.read(st, lv))
+		u.abstract("global-pointer-snapshot")
+		v.t = ga
+		return ga
 	}
 	ref := fr.allocRef(st)
 	hl := &LVal{kind: lvHeap, name: "H:" + u.sorts.typeKey(lv.typ), ref: ref, rootT: lv.typ, typ: lv.typ}
